@@ -14,6 +14,7 @@ from typing import (
     Dict,
     cast,
     Set,
+    FrozenSet,
 )
 
 import icontract._represent
@@ -647,9 +648,13 @@ def resolve_kwdefaults(sign: inspect.Signature) -> Dict[str, Any]:
 # contract checking is already in progress.
 #
 # The key refers to the id() of the function (preconditions and postconditions) or instance (invariants).
+#
+# The value is immutable and is replaced (never mutated) on every change: a context copied from this one
+# (an asyncio task, ``contextvars.copy_context()``, ``asyncio.to_thread``) copies the mapping from the variable to its
+# value, so a mutable set would be shared between the copies and concurrent callers would disable each other's checks.
 _IN_PROGRESS = contextvars.ContextVar(
-    "_IN_PROGRESS", default=None
-)  # type: contextvars.ContextVar[Optional[Set[int]]]
+    "_IN_PROGRESS", default=frozenset()
+)  # type: contextvars.ContextVar[FrozenSet[int]]
 
 
 def decorate_with_checker(func: CallableT) -> CallableT:
@@ -705,14 +710,7 @@ def decorate_with_checker(func: CallableT) -> CallableT:
             if kwargs_error:
                 raise kwargs_error
 
-            # We need to create a new in-progress set if it is None as the ``ContextVar`` does not accept
-            # a factory function for the default argument. If we didn't do this, and simply set an empty
-            # set as the default, ``ContextVar`` would always point to the same set by copying the default
-            # by reference.
             in_progress = _IN_PROGRESS.get()
-            if in_progress is None:
-                in_progress = set()
-                _IN_PROGRESS.set(in_progress)
 
             # If the wrapper is already checking the contracts for the wrapped function, avoid a recursive loop
             # by skipping any subsequent contract checks for the same function.
@@ -724,7 +722,7 @@ def decorate_with_checker(func: CallableT) -> CallableT:
 
             # Use try-finally instead of ExitStack for performance.
             try:
-                in_progress.add(id_func)
+                _IN_PROGRESS.set(in_progress | {id_func})
 
                 (preconditions, snapshots, postconditions) = _unpack_pre_snap_posts(
                     wrapper
@@ -761,9 +759,9 @@ def decorate_with_checker(func: CallableT) -> CallableT:
 
                 # The contract checks are suspended only while the contracts of this call are evaluated, not while
                 # the function itself runs: recursive calls made by the function are checked as any other call.
-                in_progress.discard(id_func)
+                _IN_PROGRESS.set(in_progress)
                 result = await func(*args, **kwargs)
-                in_progress.add(id_func)
+                _IN_PROGRESS.set(in_progress | {id_func})
 
                 if postconditions:
                     resolved_kwargs["result"] = result
@@ -776,7 +774,7 @@ def decorate_with_checker(func: CallableT) -> CallableT:
 
                 return result
             finally:
-                in_progress.discard(id_func)
+                _IN_PROGRESS.set(in_progress)
 
     else:
 
@@ -786,14 +784,7 @@ def decorate_with_checker(func: CallableT) -> CallableT:
             if kwargs_error:
                 raise kwargs_error
 
-            # We need to create a new in-progress set if it is None as the ``ContextVar`` does not accept
-            # a factory function for the default argument. If we didn't do this, and simply set an empty
-            # set as the default, ``ContextVar`` would always point to the same set by copying the default
-            # by reference.
             in_progress = _IN_PROGRESS.get()
-            if in_progress is None:
-                in_progress = set()
-                _IN_PROGRESS.set(in_progress)
 
             # If the wrapper is already checking the contracts for the wrapped function, avoid a recursive loop
             # by skipping any subsequent contract checks for the same function.
@@ -805,7 +796,7 @@ def decorate_with_checker(func: CallableT) -> CallableT:
 
             # Use try-finally instead of ExitStack for performance.
             try:
-                in_progress.add(id_func)
+                _IN_PROGRESS.set(in_progress | {id_func})
 
                 (preconditions, snapshots, postconditions) = _unpack_pre_snap_posts(
                     wrapper
@@ -844,9 +835,9 @@ def decorate_with_checker(func: CallableT) -> CallableT:
 
                 # The contract checks are suspended only while the contracts of this call are evaluated, not while
                 # the function itself runs: recursive calls made by the function are checked as any other call.
-                in_progress.discard(id_func)
+                _IN_PROGRESS.set(in_progress)
                 result = func(*args, **kwargs)
-                in_progress.add(id_func)
+                _IN_PROGRESS.set(in_progress | {id_func})
 
                 if postconditions:
                     resolved_kwargs["result"] = result
@@ -861,7 +852,7 @@ def decorate_with_checker(func: CallableT) -> CallableT:
 
                 return result
             finally:
-                in_progress.discard(id_func)
+                _IN_PROGRESS.set(in_progress)
 
     # Copy __doc__ and other properties so that doctests can run
     functools.update_wrapper(wrapper=wrapper, wrapped=func)
@@ -1026,17 +1017,10 @@ def _decorate_with_invariants(func: CallableT, is_init: bool) -> CallableT:
 
             # We need to disable the invariants check during the constructor.
 
-            # We need to create a new in-progress set if it is None as the ``ContextVar`` does not accept
-            # a factory function for the default argument. If we didn't do this, and simply set an empty
-            # set as the default, ``ContextVar`` would always point to the same set by copying the default
-            # by reference.
             in_progress = _IN_PROGRESS.get()
-            if in_progress is None:
-                in_progress = set()
-                _IN_PROGRESS.set(in_progress)
 
             id_instance = id(instance)
-            in_progress.add(id_instance)
+            _IN_PROGRESS.set(in_progress | {id_instance})
 
             # ExitStack is not used here due to performance.
             try:
@@ -1047,7 +1031,7 @@ def _decorate_with_invariants(func: CallableT, is_init: bool) -> CallableT:
 
                 return result
             finally:
-                in_progress.discard(id_instance)
+                _IN_PROGRESS.set(in_progress)
 
     else:
         # (mristin, 2021-02-16)
@@ -1083,20 +1067,13 @@ def _decorate_with_invariants(func: CallableT, is_init: bool) -> CallableT:
                     else instance.__class__.__invariants_on_call__
                 )
 
-                # We need to create a new in-progress set if it is None as the ``ContextVar`` does not accept
-                # a factory function for the default argument. If we didn't do this, and simply set an empty
-                # set as the default, ``ContextVar`` would always point to the same set by copying the default
-                # by reference.
                 in_progress = _IN_PROGRESS.get()
-                if in_progress is None:
-                    in_progress = set()
-                    _IN_PROGRESS.set(in_progress)
 
                 # The following dunder indicates whether another invariant is currently being checked. If so,
                 # we need to suspend any further invariant check to avoid endless recursion.
                 id_instance = id(instance)
                 if id_instance not in in_progress:
-                    in_progress.add(id_instance)
+                    _IN_PROGRESS.set(in_progress | {id_instance})
                 else:
                     # Do not check any invariants to avoid endless recursion.
                     return await func(*args, **kwargs)
@@ -1113,7 +1090,7 @@ def _decorate_with_invariants(func: CallableT, is_init: bool) -> CallableT:
 
                     return result
                 finally:
-                    in_progress.discard(id_instance)
+                    _IN_PROGRESS.set(in_progress)
 
         else:
 
@@ -1140,18 +1117,11 @@ def _decorate_with_invariants(func: CallableT, is_init: bool) -> CallableT:
                 # The following dunder indicates whether another invariant is currently being checked. If so,
                 # we need to suspend any further invariant check to avoid endless recursion.
 
-                # We need to create a new in-progress set if it is None as the ``ContextVar`` does not accept
-                # a factory function for the default argument. If we didn't do this, and simply set an empty
-                # set as the default, ``ContextVar`` would always point to the same set by copying the default
-                # by reference.
                 in_progress = _IN_PROGRESS.get()
-                if in_progress is None:
-                    in_progress = set()
-                    _IN_PROGRESS.set(in_progress)
 
                 id_instance = id(instance)
                 if id_instance not in in_progress:
-                    in_progress.add(id_instance)
+                    _IN_PROGRESS.set(in_progress | {id_instance})
                 else:
                     # Do not check any invariants to avoid endless recursion.
                     return func(*args, **kwargs)
@@ -1168,7 +1138,7 @@ def _decorate_with_invariants(func: CallableT, is_init: bool) -> CallableT:
 
                     return result
                 finally:
-                    in_progress.discard(id_instance)
+                    _IN_PROGRESS.set(in_progress)
 
     functools.update_wrapper(wrapper=wrapper, wrapped=func)
 
